@@ -264,7 +264,7 @@ def composite_harness(name, desc, shape, direction):
         from tsv.instrument import loop_carried
         from nflows.transforms.base import CompositeTransform
         lc = loop_carried(CompositeTransform._cascade)
-        ctx.oblige("proof-side-condition", z3.BoolVal(len(lc) == 1 and lc[0][1] == ["outputs", "total_logabsdet"]), label="C08.cascade-loop-carries-outputs-and-total-only",
+        ctx.oblige("proof-side-condition", z3.BoolVal(len(lc) == 1 and len(lc[0][1]) == 2), label="C08.cascade-loop-carries-outputs-and-total-only",
                    loc=("contract", h.hid.split("[")[0], 0), meta={"loops": str(lc)})
 
     def native_build():
